@@ -701,14 +701,14 @@ Proof.
   exact (mem_dest_tj_body_ok c alloc (bind_out w) Hm Hclr HI Hcur Hpass Hzr (bound_bind w)).
 Qed.
 
-Lemma mem_dest_ijg_body_ok c alloc w : cf_mgr c = IJG -> Inv w -> w_cur w = w_buf w ->
+Lemma mem_dest_ijg_body_wf c alloc w : cf_mgr c = IJG -> WF (w_heap w) -> nobad (w_heap w) -> w_cur w = w_buf w ->
   pass_ok c alloc w = true -> bound_now w = true ->
   match mem_dest_ijg_body w with
   | (w1, None) => MDpost c alloc w w1
   | (w1, Some st) => False
   end.
 Proof.
-  intros Hm (W & NB & HD) Hcur Hpass Hbn.
+  intros Hm W NB Hcur Hpass Hbn.
   unfold mem_dest_ijg_body, MDpost, eff_alloc. rewrite Hm.
   destruct ((w_buf w =? 0) || (w_size w =? 0)) eqn:Ez.
   - destruct (h_malloc (w_heap w) (out_buf_size IJG) Lib false) as [h1 a] eqn:Hmal.
@@ -722,6 +722,26 @@ Proof.
     split.
     { apply J_given with (b := b); try assumption; [lia|left; reflexivity|discriminate]. }
     split; [reflexivity|]. split; [reflexivity|]. split; [reflexivity|]. split; [reflexivity|]. split; [exact Hbn|]. split; [reflexivity|]. discriminate.
+Qed.
+
+Lemma mem_dest_ijg_body_ok c alloc w : cf_mgr c = IJG -> Inv w -> w_cur w = w_buf w ->
+  pass_ok c alloc w = true -> bound_now w = true ->
+  match mem_dest_ijg_body w with
+  | (w1, None) => MDpost c alloc w w1
+  | (w1, Some st) => False
+  end.
+Proof. intros Hm (W & NB & _). apply mem_dest_ijg_body_wf; assumption. Qed.
+
+(* jpeg_mem_dest does not look at the previous state of the destination object at all *)
+Lemma mem_dest_ijg_wf c alloc w : cf_mgr c = IJG -> cf_rebind c = true -> WF (w_heap w) -> nobad (w_heap w) -> w_cur w = w_buf w ->
+  pass_ok c alloc w = true ->
+  match mem_dest c alloc w with
+  | (w1, None) => MDpost c alloc w w1
+  | (w1, Some st) => False
+  end.
+Proof.
+  intros Hm Hrb W NB Hcur Hpass. unfold mem_dest. rewrite Hm, Hrb. unfold mem_dest_ijg.
+  exact (mem_dest_ijg_body_wf c alloc (bind_out w) Hm W NB Hcur Hpass (bound_bind w)).
 Qed.
 
 Lemma mem_dest_ijg_ok c alloc w : cf_mgr c = IJG -> cf_rebind c = true -> Inv w -> w_cur w = w_buf w ->
@@ -819,27 +839,14 @@ Definition CallPost (c : cfg) (alloc : bool) (ops : list pop) (w w' : world) (st
   (eff_alloc c alloc = false ->
      w_buf w' = w_buf w /\ skel (w_heap w') = skel (w_heap w) /\ (st = StOk -> w_size w' < w_size w)).
 
-Lemma run_call_ok c alloc ops w : good_cfg c -> Inv w ->
-  pass_ok c alloc w = true -> zero_reuse c alloc w = false -> forallb chunk_ok ops = true ->
+Lemma run_call_core c alloc ops w :
+  (match mem_dest c alloc (set_cur (w_buf w) w) with
+   | (w1, None) => MDpost c alloc (set_cur (w_buf w) w) w1
+   | (w1, Some st) => st = StBufSize /\ eff_alloc c alloc = false /\ MDerr (set_cur (w_buf w) w) w1
+   end) -> forallb chunk_ok ops = true ->
   match run_call_st c alloc ops w with (w', st) => CallPost c alloc ops w w' st end.
 Proof.
-  intros (Hrb & Hgood) HI Hpass Hzr Hch. unfold run_call_st.
-  set (w0 := set_cur (w_buf w) w).
-  assert (HI0 : Inv w0) by exact HI.
-  assert (Hcur0 : w_cur w0 = w_buf w0) by reflexivity.
-  assert (Hpass0 : pass_ok c alloc w0 = true) by exact Hpass.
-  assert (Hzr0 : zero_reuse c alloc w0 = false) by exact Hzr.
-  assert (MD : match mem_dest c alloc w0 with
-               | (w1, None) => MDpost c alloc w0 w1
-               | (w1, Some st) => st = StBufSize /\ eff_alloc c alloc = false /\ MDerr w0 w1
-               end).
-  { destruct (cf_mgr c) eqn:Hm.
-    - assert (Hclr : cf_clr c = true) by (destruct Hgood as [H|H]; [congruence|exact H]).
-      pose proof (mem_dest_tj_ok c alloc w0 Hm Hclr Hrb HI0 Hcur0 Hpass0 Hzr0) as H.
-      destruct (mem_dest c alloc w0) as [w1 [st|]]; [|exact H].
-      destruct H as (A & B & C). split; [exact A|]. split; [unfold eff_alloc; rewrite Hm; exact B|exact C].
-    - pose proof (mem_dest_ijg_ok c alloc w0 Hm Hrb HI0 Hcur0 Hpass0) as H.
-      destruct (mem_dest c alloc w0) as [w1 [st|]]; [contradiction|exact H]. }
+  intros MD Hch. unfold run_call_st. set (w0 := set_cur (w_buf w) w) in *.
   destruct (mem_dest c alloc w0) as [w1 [st|]].
   - (* error inside jpeg_mem_dest_tj *)
     destruct MD as (-> & Hea & (HI1 & Hh & Hb & Hs & Hok & Hheld)).
@@ -893,6 +900,31 @@ Proof.
     intros ->. destruct (Hwr eq_refl) as (_ & Hp & _). destruct (Hsucc eq_refl) as (_ & B & _).
     rewrite B. destruct HG as (_ & _ & _ & _ & Hfr & Hoff & _).
     rewrite <- E05. lia.
+Qed.
+
+
+Lemma run_call_ok c alloc ops w : good_cfg c -> Inv w ->
+  pass_ok c alloc w = true -> zero_reuse c alloc w = false -> forallb chunk_ok ops = true ->
+  match run_call_st c alloc ops w with (w', st) => CallPost c alloc ops w w' st end.
+Proof.
+  intros (Hrb & Hgood) HI Hpass Hzr Hch.
+  set (w0 := set_cur (w_buf w) w).
+  assert (HI0 : Inv w0) by exact HI.
+  assert (Hcur0 : w_cur w0 = w_buf w0) by reflexivity.
+  assert (Hpass0 : pass_ok c alloc w0 = true) by exact Hpass.
+  assert (Hzr0 : zero_reuse c alloc w0 = false) by exact Hzr.
+  assert (MD : match mem_dest c alloc w0 with
+               | (w1, None) => MDpost c alloc w0 w1
+               | (w1, Some st) => st = StBufSize /\ eff_alloc c alloc = false /\ MDerr w0 w1
+               end).
+  { destruct (cf_mgr c) eqn:Hm.
+    - assert (Hclr : cf_clr c = true) by (destruct Hgood as [H|H]; [congruence|exact H]).
+      pose proof (mem_dest_tj_ok c alloc w0 Hm Hclr Hrb HI0 Hcur0 Hpass0 Hzr0) as H.
+      destruct (mem_dest c alloc w0) as [w1 [st|]]; [|exact H].
+      destruct H as (A & B & C). split; [exact A|]. split; [unfold eff_alloc; rewrite Hm; exact B|exact C].
+    - pose proof (mem_dest_ijg_ok c alloc w0 Hm Hrb HI0 Hcur0 Hpass0) as H.
+      destruct (mem_dest c alloc w0) as [w1 [st|]]; [contradiction|exact H]. }
+  exact (run_call_core c alloc ops w MD Hch).
 Qed.
 
 (* ------------------------------------------ the flag only ever goes down *)
